@@ -11,6 +11,8 @@ CONSTANTS
   MaxDepth = 2
   CellMask = TRUE
   CopyClear = TRUE
+  Grow = 1
+  GrowDepth = 2
   DataCopyDepth = 2
   Valueless = TRUE
   Deviations = {}
